@@ -741,6 +741,24 @@ func (e *Env) evalCall(n *ECall) SVal {
 			key = e.pkg.Path() + "#" + name
 		}
 		return SVal{T: x.w.fnLit(key), Ty: goT(types.Typ[types.UnsafePointer])}
+	case "pointsTo":
+		// pointsTo(p, v): the struct stored at p equals the struct value v
+		pv := arg(0)
+		vv := arg(1)
+		pt, ok := pv.Ty.Go.Underlying().(*types.Pointer)
+		if !ok {
+			sfail("pointsTo: first argument is not a pointer")
+		}
+		stt, ok := pt.Elem().Underlying().(*types.Struct)
+		if !ok {
+			sfail("pointsTo: not a pointer to struct")
+		}
+		var cs []Term
+		for i := 0; i < stt.NumFields(); i++ {
+			hn, hs := x.fieldHeap(pt.Elem(), i)
+			cs = append(cs, eq(sel(x.heapGet(e.cur, hn, hs), pv.T), x.w.dtSelect(vv.T, i)))
+		}
+		return boolV(and(cs...))
 	case "allocated":
 		v := arg(0)
 		r := v.T
